@@ -207,3 +207,23 @@ class World:
             return ("accepted", a.what)
         except PyRaise as p:
             return ("raise", p.name, p.msg)
+
+
+def stub_preprocess_arg(world):
+    """model of verbs.preprocess_arg for bare column arguments (decided itself by C09): C.name resolves against the table,
+    a Col must be in scope of the table; everything else is ColumnNotFoundError"""
+
+    def pp(arg, table, **_kw):
+        c = table.attrs["_cache"]
+        if isinstance(arg, Obj) and arg.cls.name == "ColName":
+            nm = arg.attrs["name"]
+            if nm not in c.attrs["name_to_uuid"]:
+                raise PyRaise("ColumnNotFoundError", f"no column {nm}")
+            return c.attrs["cols"][c.attrs["name_to_uuid"][nm]]
+        if isinstance(arg, Obj) and arg.cls.name == "Col":
+            if arg.attrs["_uuid"] not in c.attrs["cols"]:
+                raise PyRaise("ColumnNotFoundError", "column not in scope")
+            return arg
+        return arg
+
+    return Native(pp, "preprocess_arg")
